@@ -56,7 +56,7 @@ func main() {
 		}
 		all := make([][]string, rep)
 		for r := 0; r < rep; r++ {
-			subj := c20lib.Build(cs.Origin, cs.D1, cs.D2)
+			subj := c20lib.Build(cs.Origin, cs.D1, cs.D2, cs.More...)
 			got := make([]string, len(cs.Seqs))
 			start := make(chan struct{})
 			var wg sync.WaitGroup
@@ -73,7 +73,7 @@ func main() {
 			all[r] = got
 		}
 		// the single-threaded reference, computed after the concurrent rounds
-		ref := c20lib.Build(cs.Origin, cs.D1, cs.D2)
+		ref := c20lib.Build(cs.Origin, cs.D1, cs.D2, cs.More...)
 		single := make([]string, len(cs.Seqs))
 		for g, seq := range cs.Seqs {
 			single[g] = hashObs(ref, seq)
